@@ -244,6 +244,24 @@ SPECS += [
          props=["C15"]),
 ]
 
+# ---- data/grid_base.py : to_canonical / from_canonical (C15) --------------------------------------------------------
+# arrays are `Arr α` (shape + element function); the numpy calls are read as the array operations of FinamModel/Index.lean
+# (`np.transpose` = all axes reversed, `np.flip(a, axis=i)`), `x[::rev]` with `rev` = ±1 as `Py.stepSlice`
+ARR = "Lean:(Arr α)"
+_CANON = dict(
+    path="data/grid_base.py", group="Canonical", type_params=["α"], imports=["FinamModel.PyArr"],
+    fields={"axes_reversed": "Bool", "data_shape": "List[Int]", "axes_increase": "List[Bool]"}, params={"data": ARR}, ret=ARR,
+    consts={"np.shape(data)": ("(Py.shapeI data)", "List[Int]"), "np.ndim(data)": ("(Py.ndimI data)", "Int"),
+            "np.transpose(data)": ("(Arr.transpose data)", ARR), "np.flip(data, axis=i)": ("(Arr.flip i.toNat data)", ARR)},
+    drop_assign=["msg"], props=["C15"])
+SPECS += [
+    dict(lean="StructuredGrid_to_canonical", qual="StructuredGrid.to_canonical",
+         conds={"np.array_equal(d_shp[::rev], in_shp[::rev][:shp_len])":
+                "(Py.stepSlice d_shp rev = Py.takeI (Py.stepSlice in_shp rev) shp_len)"}, **_CANON),
+    dict(lean="StructuredGrid_from_canonical", qual="StructuredGrid.from_canonical",
+         conds={"np.array_equal(d_shp[::rev], in_shp[:shp_len])": "(Py.stepSlice d_shp rev = Py.takeI in_shp shp_len)"}, **_CANON),
+]
+
 INTEG_COMMON = dict(
     path="adapters/time_integration.py", group="Integ", ret="Rat",
     calls={"self._unpack": "id", "interpolate": {"lean": "interpolate", "args": [0, 1, 2], "ret": "Rat"}},
